@@ -1,0 +1,66 @@
+//go:build verif
+
+package glob
+
+// Contracts for the deductive verifier in /verif (vcgo). Comment-only: with the
+// build tag off this file does not exist for the compiler.
+//
+// Property C12 (limits soundness): every string that matches the pattern lies
+// inside the id range Parse computes, so a range scan restricted to the limits
+// loses no match.
+
+//@ ghost def isMeta(c int) bool = c == '*' || c == '?' || c == '[' || c == '\\'
+//@ ghost func litpre(p string) int
+//@ axiom litpre.range: allstr(p, 0 <= litpre(p) && litpre(p) <= len(p))
+//@ axiom litpre.lit: allstr(p, allint(i, 0 <= i && i < litpre(p) ==> !isMeta(p[i])))
+//@ axiom litpre.meta: allstr(p, litpre(p) < len(p) ==> isMeta(p[litpre(p)]))
+//@ ghost def agree(s string, p string, n int) bool = n <= len(s) && forall(i, 0, n, s[i] == p[i])
+
+//@ lemma litpre.prefix: allstr(p, allstr(c, len(c) <= len(p) && c == p[0:len(c)] && litpre(p) <= len(c) ==> litpre(c) == litpre(p)))
+//@ lemma-uses litpre.range, litpre.lit, litpre.meta
+
+//@ ghost def inLimits(lo string, hi string, desc bool, s string) bool = (lo == "" && hi == "") || (!desc && !slt(s, lo) && slt(s, hi)) || (desc && !slt(lo, s) && slt(hi, s))
+
+//@ func getEsc
+//@   nopanic
+//@   ensures err == nil ==> len(nchunk) > 0 && len(nchunk) < len(chunk0) && nchunk == chunk0[len(chunk0)-len(nchunk):]
+
+//@ func scanChunk
+//@   nopanic
+//@   uses litpre.range, litpre.lit, litpre.meta
+//@   ensures len(pattern0) > 0 && pattern0[0] != '*' ==> !star && len(chunk) <= len(pattern0) && chunk == pattern0[0:len(chunk)] && litpre(pattern0) <= len(chunk)
+//@   loop 1 invariant len(pattern0) > 0 && pattern0[0] != '*' ==> pattern == pattern0 && !star
+//@   loop 2 invariant 0 <= i && i <= len(pattern)
+
+//@ func matchChunk
+//@   nopanic
+//@   uses litpre.range, litpre.lit, litpre.meta
+//@   ensures ok ==> agree(s0, chunk0, litpre(chunk0))
+//@   loop 1 invariant !ok
+//@   loop 1 invariant len(chunk) <= len(chunk0) && chunk == chunk0[len(chunk0)-len(chunk):]
+//@   loop 1 invariant len(s) <= len(s0) && s == s0[len(s0)-len(s):]
+//@   loop 1 invariant len(chunk0)-len(chunk) <= litpre(chunk0) ==> len(s0)-len(s) == len(chunk0)-len(chunk) && agree(s0, chunk0, len(chunk0)-len(chunk))
+//@   loop 1 invariant len(chunk0)-len(chunk) > litpre(chunk0) ==> agree(s0, chunk0, litpre(chunk0))
+//@   loop 2 invariant len(chunk) <= len(chunk0) && chunk == chunk0[len(chunk0)-len(chunk):]
+//@   loop 2 invariant len(chunk0)-len(chunk) > litpre(chunk0)
+
+//@ func wildcardMatch
+//@   nopanic
+//@   uses litpre.range, litpre.lit, litpre.meta, litpre.prefix
+//@   ensures matched && len(pattern0) > 0 && pattern0[0] != '*' ==> agree(name0, pattern0, litpre(pattern0))
+//@   loop 1 invariant (pattern == pattern0 && name == name0) || (len(pattern0) > 0 && pattern0[0] != '*' ==> agree(name0, pattern0, litpre(pattern0)))
+
+//@ func Match
+//@   nopanic
+//@   modifies nothing
+//@   ensures matched && len(pattern) > 0 && pattern[0] != '*' ==> agree(str, pattern, litpre(pattern))
+
+//@ func Parse
+//@   nopanic
+//@   uses litpre.range, litpre.lit, litpre.meta
+//@   ensures result != nil && len(result.Limits) == 2
+//@   ensures [limits] allstr(s, len(pattern) > 0 && pattern[0] != '*' && agree(s, pattern, litpre(pattern)) ==> inLimits(result.Limits[0], result.Limits[1], desc, s))
+//@   loop 1 invariant n == i && i <= len(pattern) && forall(j, 0, i, pattern[j] != '[' && pattern[j] != '*' && pattern[j] != '?' && pattern[j] != '\\')
+
+//@ func IsGlob
+//@   nopanic
